@@ -8,6 +8,7 @@ loop.  No product constant is modified: the only substitution is the selector
 """
 import os
 import time
+import signal
 import socket
 import asyncio
 import selectors
@@ -47,8 +48,20 @@ class LoopDied(Exception):
             line = line.strip()
             if line.startswith('File "') and '/proxy/' in line and ', in ' in line:
                 fn = line.rsplit(', in ', 1)[1]
+        if getattr(self, 'stalled', False):
+            return 'STALL@%s' % fn
         return '%s@%s' % (type(self.exc).__name__, fn)
 
+
+class _Stalled(BaseException):
+    """Raised by the SIGALRM watchdog inside a loop iteration that does not return."""
+
+
+def _on_alarm(signum: int, frame: Any) -> None:
+    raise _Stalled()
+
+
+STALL_LIMIT_S = 6.0     # one loop iteration never legitimately takes this long in the rigs (no black-holed connects)
 
 _flags_cache: Dict[str, Any] = {}
 
@@ -120,10 +133,25 @@ class StepRig:
             raise self.dead
         ident = threading.get_ident()
         shim.S.active_threads.add(ident)
+        watchdog = threading.current_thread() is threading.main_thread()
         try:
             for _ in range(n):
                 try:
-                    self.loop.run_until_complete(self.ex._run_once())
+                    if watchdog:
+                        old = signal.signal(signal.SIGALRM, _on_alarm)
+                        signal.setitimer(signal.ITIMER_REAL, STALL_LIMIT_S)
+                    try:
+                        self.loop.run_until_complete(self.ex._run_once())
+                    finally:
+                        if watchdog:
+                            signal.setitimer(signal.ITIMER_REAL, 0)
+                            signal.signal(signal.SIGALRM, old)
+                except _Stalled:
+                    # the iteration did not come back: the executor is stuck inside one work's handler
+                    tb = traceback.format_exc()
+                    self.dead = LoopDied(RuntimeError('iteration exceeded %.0fs' % STALL_LIMIT_S), tb)
+                    self.dead.stalled = True      # type: ignore[attr-defined]
+                    raise self.dead
                 except Exception as e:      # an exception escaping the loop body = the executor is gone
                     self.dead = LoopDied(e, traceback.format_exc())
                     raise self.dead
